@@ -18,6 +18,7 @@ ENVOPS = ("open", "wr", "drain", "hc", "pc", "fill", "unfill", "close")
 
 KEY_F1 = "F1.poll-update-after-remove"
 KEY_F14 = "F14.empty-interest-registered"
+KEY_REUSE = "removeChannel-assert-address-reuse"
 
 
 def gen_defined(name):
@@ -162,8 +163,8 @@ def strip_poll(ops):
     return ["POLL" if op.startswith("POLL") else "LOOP" if op.startswith("LOOP") else op for op in ops]
 
 
-def mkcase(cid, raw_ops, tag):
-    return vlib.Case(cid, "ops", annotate(strip_poll(raw_ops)), tag)
+def mkcase(cid, raw_ops, tag, header="ops"):
+    return vlib.Case(cid, header, annotate(strip_poll(raw_ops)), tag)
 
 
 # ------------------------------------------------------------------ the property oracle
@@ -181,7 +182,7 @@ def py_dispatch(r):
 
 
 POLL_RE = re.compile(r"^poll env=(\S*) E (?:n=(\d+) cap=(\d+)|dead) \[(\S*)\] cb=(\S*) \| P (?:n=(\d+)|dead) \[(\S*)\] cb=(\S*)$")
-LOOP_SIDE_RE = re.compile(r"^(?:E|P) (dead|FAULT|(ok|rejected) n=(\d+)(?: cap=(\d+))? \[(\S*)\](?: cb=(\S*) fn=(\S*))?)$")
+LOOP_SIDE_RE = re.compile(r"^(?:E|P) (dead|FAULT|(ok|rejected) n=(\d+)(?: cap=(\d+))? \[(\S*)\](?: cb=(\S*) fn=(\S*?)(?: w=(\d+) t=(\d) tf=(\d+))?)?)$")
 LOOPLINE_RE = re.compile(r"^loop env=(\S*) (E .*?) \| (P .*?) \|\| (.*)$")
 SCRIPT_OPS = ("ER", "DR", "EW", "DW", "DA", "RM", "NEW", "DEL")
 
@@ -213,15 +214,17 @@ def parse_loop_side(txt):
         return {"status": m.group(1)}
     return {"status": m.group(2), "n": int(m.group(3)), "cap": int(m.group(4)) if m.group(4) else None,
             "act": parse_pairs(m.group(5)), "cbs": parse_cbs(m.group(6)) if m.group(6) is not None else None,
-            "fn": [int(x) for x in m.group(7).split(",") if x] if m.group(7) is not None else None}
+            "fn": [int(x) for x in m.group(7).split(",") if x] if m.group(7) is not None else None,
+            "w": int(m.group(8)) if m.group(8) is not None else None, "t": int(m.group(9)) if m.group(9) is not None else None,
+            "tf": int(m.group(10)) if m.group(10) is not None else None}
 
 
 def parse_script(w):
     """ON c kind [Q] op c2 [k] -> (c, kind, queued, op, c2, arg)"""
     i = 3
-    queued = False
-    if w[i] == "Q":
-        queued = True
+    queued = 0
+    if w[i] in ("Q", "QQ"):
+        queued = 1 if w[i] == "Q" else 2
         i += 1
     return (int(w[1]), w[2], queued, w[i], int(w[i + 1]), int(w[i + 2]) if len(w) > i + 2 else -1)
 
@@ -378,9 +381,13 @@ def oracle(case, lines, crash=None, ri=True, events=None):
                                "consumed once)" % (backend, k, v), set()))
         return bad
     sides = {"E": Spec("E"), "P": Spec("P")}
-    dead = {"E": False, "P": False}
+    dead = {"E": "only=P" in case.header.split(), "P": "only=E" in case.header.split()}
     tied, owner = {"E": {}, "P": {}}, {"E": {}, "P": {}}
-    scripts = []
+    scripts = []              # never shrinks: OFF only deactivates (functors still queued keep their index)
+    active = []
+    pend = {"E": [], "P": []}  # functors (1000 + script index) queued by a running functor: they run in the next iteration
+    wdesc = tdesc = None       # descriptors that are dups of the loop's own eventfd / timerfd
+    kw, due, armed = 0, False, 0
     trunc_run = None          # consecutive truncated epoll polls: (first index, N, polls so far)
 
     def live():
@@ -422,6 +429,9 @@ def oracle(case, lines, crash=None, ri=True, events=None):
         w = op.split()
         li = i + 1
         if li >= len(lines) or lines[li] == "end":
+            if crash is not None and w[0] == "FOREIGN" and "abortNotInLoopThread" in crash[1]:
+                ev.add("foreign-thread-refused")
+                return bad      # the expected outcome: the process aborted in EventLoop::abortNotInLoopThread
             if crash is not None:
                 summ = crash_summary(crash)
                 msg = "implementation crashed at op %d %r: %s" % (i, op, summ)
@@ -443,8 +453,31 @@ def oracle(case, lines, crash=None, ri=True, events=None):
         if ln.startswith("invalid") or ln == "skipped":
             return bad          # not a history of the property's domain (environment misuse / both sides ended): nothing to check
         k = w[0]
+        if k == "open" and len(w) > 2 and w[2] in "WT":
+            if w[2] == "W":
+                wdesc = int(w[1])
+            else:
+                tdesc = int(w[1])
+            continue
         if k in ENVOPS:
             continue
+        if k == "WAKE":
+            kw += 1
+            continue
+        if k == "TIMER":
+            if ln != "timer":
+                bad.append((i, "a timer armed with runAfter(~0) did not make the timerfd due: %r" % ln, set()))
+            due = True
+            armed += 1
+            continue
+        if k == "HAS":
+            want = "has E=%s P=%s" % tuple("-" if dead[x] else ("1" if (int(w[1]) in sides[x].o and sides[x].o[int(w[1])]["reg"]) else "0") for x in ("E", "P"))
+            if ln != want:
+                bad.append((i, "Poller::hasChannel: %r, registered channels say %r" % (ln, want), set()))
+            continue
+        if k == "FOREIGN":
+            bad.append((i, "a Channel update from a thread other than the loop's was not refused (%r): Poller::assertInLoopThread must abort" % ln, set()))
+            return bad
         if k == "INJ":
             c = int(w[1])
             cbs = py_dispatch(int(w[2])) if runs(c) else []
@@ -467,9 +500,10 @@ def oracle(case, lines, crash=None, ri=True, events=None):
             continue
         if k == "ON":
             scripts.append(parse_script(w))
+            active.append(True)
             continue
         if k == "OFF":
-            scripts = []
+            active = [False] * len(active)
             continue
         if k in ("NEW", "DEL", "RM") or k in UPD:
             gs = [sides[x].guard(w) for x in live()]
@@ -532,6 +566,10 @@ def oracle(case, lines, crash=None, ri=True, events=None):
             parsed = {"E": parse_loop_side(m.group(2)), "P": parse_loop_side(m.group(3))}
             res, exps = {}, {}
             pre = snapshot_maps(sides)
+            # the harness queues quit() before loop() is entered: queueInLoop outside the loop wakes it (one more wake-up pending)
+            kw_poll = kw + 1
+            if wdesc is not None and ((env.get(wdesc, 0) & IN) != 0) != (kw_poll > 0):
+                bad.append((i, "the wake-up eventfd is %sreadable with %d wake-up(s) pending" % ("" if env.get(wdesc, 0) & IN else "not ", kw_poll), set()))
             for x, name in (("E", "epoll"), ("P", "poll")):
                 if dead[x]:
                     continue
@@ -578,7 +616,7 @@ def oracle(case, lines, crash=None, ri=True, events=None):
                         if c not in sp.anom:
                             ev.add("stale-call-within-batch")
                     for si, sc in enumerate(scripts):
-                        if sc[0] != c or sc[1] != kind:
+                        if not active[si] or sc[0] != c or sc[1] != kind:
                             continue
                         if sc[2]:
                             queued.append(si)
@@ -588,15 +626,53 @@ def oracle(case, lines, crash=None, ri=True, events=None):
                             break
                     if rejected:
                         break
+                # doPendingFunctors: what was left pending by the previous iteration (queued by a running functor), then what
+                # the callbacks of this batch queued; a QQ functor only queues its second stage, which stays pending
+                run_now = list(pend[x]) + queued
+                new_pend = []
                 if not rejected:
-                    for si in queued:
-                        ev.add("functor-queued-by-callback")
-                        if not apply(script_op(scripts[si]), None):
-                            rejected = True
-                            break
-                if not rejected and pr["status"] == "ok" and pr["fn"] != queued:
-                    bad.append((i, "%s: functors run by doPendingFunctors %s, the callbacks of this batch queued %s (each must run once, in "
-                                   "order, in the same iteration)" % (name, pr["fn"], queued), set()))
+                    for fid in run_now:
+                        if fid >= 1000:
+                            ev.add("functor-queued-by-functor-ran")
+                            if not apply(script_op(scripts[fid - 1000]), None):
+                                rejected = True
+                                break
+                        elif scripts[fid][2] == 2:
+                            new_pend.append(1000 + fid)
+                        else:
+                            ev.add("functor-queued-by-callback")
+                            if not apply(script_op(scripts[fid]), None):
+                                rejected = True
+                                break
+                if not rejected and pr["status"] == "ok" and pr["fn"] != run_now:
+                    bad.append((i, "%s: functors run by doPendingFunctors %s; pending from the previous iteration + queued by the callbacks of "
+                                   "this batch = %s (each must run once, in order, in this iteration)" % (name, pr["fn"], run_now), set()))
+                if not rejected:
+                    pend[x] = new_pend
+                # the loop's own descriptors: every wake-up is consumed by the wake-up channel's read callback, wake-ups issued by
+                # running functors (queueInLoop while callingPendingFunctors_) survive it; a due timer fires exactly once
+                if not rejected and pr["status"] == "ok" and pr.get("w") is not None:
+                    wread = any(sp.o.get(c, {}).get("fd") == wdesc and kd == "read" for c, kd in want_cbs) if wdesc is not None else False
+                    tread = any(sp.o.get(c, {}).get("fd") == tdesc and kd == "read" for c, kd in want_cbs) if tdesc is not None else False
+                    kw_after = (0 if wread else kw_poll) + len(new_pend)
+                    if pr["w"] != kw_after:
+                        bad.append((i, "%s: wake-up counter %d after the iteration; %d wake-up(s) were pending at poll time, the wake-up channel's read "
+                                       "callback %s, running functors queued %d functor(s): it must be %d" %
+                                    (name, pr["w"], kw_poll, "ran" if wread else "did not run", len(new_pend), kw_after), set()))
+                    want_t = 0 if (tread or not due) else 1
+                    want_tf = armed if tread else 0
+                    if pr["t"] != want_t or pr["tf"] != want_tf:
+                        bad.append((i, "%s: after the iteration the timerfd is %sdue and %d timer callback(s) ran; %d timer(s) were due and the timer "
+                                       "channel's read callback %s: expected %sdue, %d" %
+                                    (name, "" if pr["t"] else "not ", pr["tf"], armed if due else 0, "ran" if tread else "did not run",
+                                     "" if want_t else "not ", want_tf), set()))
+                    kw = kw_after
+                    if tread:
+                        due, armed = False, 0
+                    if wread:
+                        ev.add("wakeup-consumed")
+                    if tread and want_tf:
+                        ev.add("timer-fired")
                 if rejected != (pr["status"] == "rejected"):
                     bad.append((i, "%s: the callbacks' calls %s a precondition (Channel API / EventLoop::removeChannel), the implementation's "
                                    "batch was %s" % (name, "violate" if rejected else "respect", pr["status"]), set()))
@@ -817,6 +893,71 @@ HANDMADE = {
 }
 
 
+# histories that use the loop's OWN wake-up eventfd (W) and timerfd (T): run once per back-end (only=E / only=P)
+ONESIDED = {
+    # every wake-up is consumed once; a due timer fires once; with the wake-up channel disabled the counter accumulates;
+    # a functor queued by a running functor (QQ) wakes the loop and runs in the next iteration
+    "wake_timer": ["open 0 W", "open 1 T", "open 2 E", "NEW 0 0", "NEW 1 1", "NEW 2 2", "ER 0", "ER 1", "ER 2", "HAS 0", "HAS 5", "LOOP", "LOOP",
+                   "WAKE", "WAKE", "LOOP", "LOOP", "TIMER", "LOOP", "LOOP", "wr 2", "ON 2 read QQ DA 2", "LOOP", "LOOP", "LOOP", "DA 0", "LOOP", "LOOP",
+                   "ER 0", "LOOP", "LOOP", "HAS 0", "DA 0", "RM 0", "HAS 0"],
+    "timer_not_watched": ["open 0 W", "open 1 T", "NEW 0 0", "NEW 1 1", "ER 0", "TIMER", "LOOP", "LOOP", "ER 1", "TIMER", "LOOP", "LOOP", "DA 1", "TIMER",
+                          "LOOP", "ER 1", "LOOP", "LOOP"],
+    "nested_functors": ["open 0 W", "open 1 E", "open 2 E", "NEW 0 0", "NEW 1 1", "NEW 2 2", "ER 0", "ER 1", "ER 2", "wr 1", "wr 2",
+                        "ON 1 read QQ DA 2", "ON 2 read QQ NEW 7 1", "ON 1 read Q DR 1", "LOOP", "OFF", "LOOP", "LOOP", "LOOP"],
+    # a Channel update from another thread must abort the process (Poller::assertInLoopThread)
+    "foreign_thread_update": ["open 0 E", "NEW 0 0", "ER 0", "LOOP", "FOREIGN EW 0"],
+}
+
+
+def gen_onesided():
+    for name, ops in sorted(ONESIDED.items()):
+        for side in "EP":
+            yield mkcase("one_%s_%s" % (name, side), ops, "handmade-one-sided", "ops only=%s" % side)
+
+
+def gen_wake(rng, count, prefix="k"):
+    """one-sided random histories over the loop's own wake-up / timer descriptors, a few ordinary channels, wake-ups, timers,
+    functors queued by callbacks (Q) and by running functors (QQ), interest changes of the two internal channels"""
+    for ci in range(count):
+        side = "EP"[ci % 2]
+        n = rng.randint(1, 3)
+        ops = ["open 0 W", "open 1 T", "NEW 0 0", "NEW 1 1"]
+        for k in range(n):
+            ops += ["open %d E" % (2 + k), "NEW %d %d" % (2 + k, 2 + k)]
+            if rng.random() < 0.8:
+                ops.append("ER %d" % (2 + k))
+            if rng.random() < 0.5:
+                ops.append("wr %d" % (2 + k))
+        if rng.random() < 0.9:
+            ops.append("ER 0")
+        if rng.random() < 0.85:
+            ops.append("ER 1")
+        for _ in range(rng.randint(4, 14)):
+            y = rng.random()
+            if y < 0.30:
+                ops.append("LOOP")
+            elif y < 0.42:
+                ops.append("WAKE")
+            elif y < 0.52:
+                ops.append("TIMER")
+            elif y < 0.72:
+                c = rng.randrange(2 + n)
+                kind = "read" if c < 2 or rng.random() < 0.8 else "write"
+                q = rng.choice(["", "Q ", "QQ ", "QQ "])
+                c2 = rng.randrange(2 + n)
+                ops.append("ON %d %s %s%s %d" % (c, kind, q, rng.choice(["DA", "ER", "EW", "DR", "DW"]), c2))
+            elif y < 0.77:
+                ops.append("OFF")
+            elif y < 0.90:
+                ops.append("%s %d" % (rng.choice(["DA", "ER", "ER", "DR"]), rng.randrange(2 + n)))
+            elif y < 0.95:
+                ops.append("HAS %d" % rng.randrange(3 + n))
+            else:
+                ops.append("%s %d" % (rng.choice(["wr", "drain"]), 2 + rng.randrange(n)))
+        ops += ["LOOP", "LOOP"]
+        yield mkcase("%s%d" % (prefix, ci), ops, "wake-timer", "ops only=%s" % side)
+
+
 def gen_enumerated(depth, sample=None, rng=None):
     """All op sequences of the given depth over two Channel objects behind a third registered one
     (so that removing either exercises swap-and-pop); re-registration and redundant disables (the
@@ -1025,7 +1166,7 @@ def load_case_file(path, prefix=""):
             if header.startswith("loop"):
                 cases.append(vlib.Case(cid, header, [], "corpus"))
             else:
-                cases.append(mkcase(cid, ops, "corpus"))
+                cases.append(mkcase(cid, ops, "corpus", header))
         else:
             ops.append(line)
     return cases
@@ -1080,6 +1221,7 @@ def run(chk, replay=None):
         cases.append(case_dispatch_tied())
         for name, ops in sorted(HANDMADE.items()):
             cases.append(mkcase("hand_" + name, ops, "handmade"))
+        cases += list(gen_onesided())
         cases += [case_loop("epoll"), case_loop("poll")]
         if tier == "quick":
             sizes = [1, 15, 16, 17, 33, 100, 300]
@@ -1094,6 +1236,7 @@ def run(chk, replay=None):
             nrand, nwild = 120000, 3000
         cases += [case_growth(n) for n in sizes]
         cases += list(gen_batches(rng, 300 if tier == "quick" else 25000))
+        cases += list(gen_wake(rng, 200 if tier == "quick" else 12000))
         cases += list(gen_random(rng, nrand, ri, wild=False, prefix="r"))
         cases += list(gen_random(rng, nwild, ri, wild=True, prefix="w"))
     chk.cov["generator_histogram"] = getattr(gen_random, "stats", {})
@@ -1104,7 +1247,7 @@ def run(chk, replay=None):
     others = [c for c in cases if not c.header.startswith("loop")]
     from concurrent.futures import ThreadPoolExecutor
     with ThreadPoolExecutor(max_workers=4) as ex:
-        futs = [ex.submit(vlib.run_batch, impl, [c], 120) for c in loops]
+        futs = [ex.submit(vlib.run_batch, impl, [c], 400) for c in loops]
         impl_out, crashes = vlib.run_batch_parallel(impl, others, timeout=1200)
         for f in futs:
             o, c = f.result()
@@ -1118,7 +1261,34 @@ def run(chk, replay=None):
     chk.cov["phase_s"] = {"generate": round(t1 - chk.t0 - pr["wall_s"], 1), "impl": round(t2 - t1, 1), "model": round(t3 - t2, 1)}
 
     known = {k["key"]: k["text"] for k in vlib.known_findings() if k["property"] == "C09"}
+    # cases marked "plain" are also replayed on a non-ASan build (asserts on): ASan's quarantine hides allocator address
+    # reuse, which EventLoop::removeChannel's pointer-comparing assert is sensitive to
+    plain_cases = [c for c in cases if "plain" in c.header.split()]
+    plain_bad = []
+    if plain_cases:
+        plain = vlib.build_driver("C09_driver_plain", ["C09_driver.cc"], variant="plain", wrap=["epoll_wait", "poll"])
+        pout, pcrash = vlib.run_batch(plain, plain_cases, timeout=300)
+        for c in plain_cases:
+            chk.cov["evaluations"] += 1
+            crash = pcrash.get(c.cid)
+            li = pout.get(c.cid) if crash is None else ([l for l in crash[2] if l] or ["case ?"])
+            if li is None:
+                plain_bad.append((c, 0, "no output on the non-ASan build", set()))
+                continue
+            for (idx, msg, flags) in oracle(c, li, crash, ri):
+                fl = set(flags)
+                if crash is not None and "currentActiveChannel_ == channel" in crash[1] and idx < len(c.ops) and c.ops[idx].startswith("LOOP") \
+                   and any(sc.startswith("ON") and " DEL " in sc for sc in c.ops) and any(sc.startswith("ON") and " NEW " in sc for sc in c.ops) \
+                   and any(sc.startswith("ON") and " RM " in sc for sc in c.ops):
+                    fl.add(KEY_REUSE)
+                plain_bad.append((c, idx, "[non-ASan build] " + msg, fl))
     corr_bad, oracle_bad, known_hits = [], [], {}
+    for (c, idx, msg, fl) in plain_bad:
+        if fl and all(k in known for k in fl):
+            for k in fl:
+                known_hits.setdefault(k, (c, msg))
+        else:
+            oracle_bad.append((c, idx, msg, fl))
     sigs = set()
     hist = {}
     for c in cases:
@@ -1173,6 +1343,8 @@ def run(chk, replay=None):
                        not corr_bad)
     chk.add_obligation("oracle: exactly the ready subscribed channels are reported and called (snapshot semantics inside a batch, tie guard), both "
                        "back-ends the same, bounded epoll growth, loop blocks when idle (on the implementation's own outputs)", not oracle_bad)
+    chk.add_obligation("cases marked 'plain' replayed on a non-ASan build of the same driver (allocator address reuse visible): property oracle",
+                       not [b for b in plain_bad if not (b[3] and all(k in known for k in b[3]))])
     chk.add_obligation("generated facts: PollPoller_remove_resets_index / EPollPoller_add_skips_empty_interest / PollPoller_new_entry_negates_empty / "
                        "EPollPoller_grow_factor regenerated from the AST", grow != "?" and gen_defined("EPollPoller_add_skips_empty_interest")
                        and gen_defined("PollPoller_new_entry_negates_empty"))
@@ -1197,18 +1369,18 @@ def run(chk, replay=None):
         return li, mo.get(cc.cid), crash
 
     def shrink(c, pred):
-        if c.header.startswith("loop"):
+        if c.header.startswith("loop") or "plain" in c.header.split():
             return c
         raw = strip_poll(c.ops)
 
         def fails(ops):
-            cc = mkcase("s", ops, "shrink")
+            cc = mkcase("s", ops, "shrink", c.header)
             li, lm, crash = run_one(cc)
             if li is None or any(l.startswith("invalid") for l in li):
                 return False
             return pred(cc, li, lm, crash)
         ops = vlib.ddmin(raw, fails, max_tests=120)
-        return mkcase(c.cid, ops, c.tag)
+        return mkcase(c.cid, ops, c.tag, c.header)
 
     for k, (c, msg) in sorted(known_hits.items()):
         chk.known(k, "key=%s %s [e.g. case %s: %s]" % (k, known[k], c.cid, msg[:200]))
@@ -1230,7 +1402,12 @@ def run(chk, replay=None):
             li, lm, crash = run_one(small)
             fs = oracle(small, li, crash, ri) if li else []
             msg2 = fs[0][1] if fs else msg
-            tag = ("matches the signature of the FIXED finding %s, and the generated facts say its repair is missing from this tree" % ",".join(flags)) if flags else "no documented finding pattern"
+            if flags and set(flags) <= {KEY_F14, KEY_F1}:
+                tag = "matches the signature of the FIXED finding %s, and the generated facts say its repair is missing from this tree" % ",".join(flags)
+            elif flags:
+                tag = "instance of the documented finding %s (findings/C09.md), which is not listed in KNOWN_FINDINGS.txt" % ",".join(flags)
+            else:
+                tag = "no documented finding pattern"
             p = chk.write_replay("oracle_%s.case" % c.cid, "# %s\n# %s\n" % (msg2.replace("\n", " "), tag) + small.text())
             chk.violation(p, "C09 fails on the implementation: %s [%s; %d failing cases in this group]" % (msg2, tag, len(lst)))
     if corr_bad or not pr["ok"]:
